@@ -623,7 +623,14 @@ def pre_C06(ctx):
         ctx.tie_broken("T-src:parser_state.rs", {"error": msg})
 
 
-PRE = {"C06": pre_C06}
+def _pre_lazy(fn):
+    def run(ctx):
+        from . import tsrc
+        return getattr(tsrc, fn)(ctx)
+    return run
+
+
+PRE = {"C06": pre_C06, "C01": _pre_lazy("pre_C01"), "C14": _pre_lazy("pre_C14")}
 
 
 def _lazy(modname, fn):
